@@ -30,6 +30,7 @@ package main
 //   R:<meth>:<pathtmpl>:<hdrspec>:<basicspec>:<body>   one recorded request of the C11 matrix
 //   W:<path>                  probe a path without any credentials through main()'s wiring
 //   Y                         the output messages (id:data:recipients) stored for the newest log entry
+//   J:<pw>                    GET / as JSON (the status the time safeguard of a joining node reads): CurrentTime vs. request window
 //   U:<s>                     strconv.ParseUint(s, 0, 64) (the id / revision parser of the handlers)
 //   Z                         end-of-case comparisons: a second replica fed the same log,
 //                             and a copy restored from Marshal/Unmarshal
@@ -946,6 +947,19 @@ func (r *verifApiRun) op(tok string) (obs string) {
 			out = "-"
 		}
 		return fmt.Sprintf("Y|idx=%d|out=%s", last, out)
+
+	case "J":
+		// the responder side of the time safeguard: GET / with Accept: application/json and the network password; the
+		// reported CurrentTime must have been read between the moment the request was sent and the moment the answer was read
+		pw := verifApiUnhex(a[1])
+		before := time.Now()
+		res := r.do("GET", "/", map[string]string{"Accept": "application/json"}, &[2]string{"robustirc", pw}, nil, 20*time.Second)
+		after := time.Now()
+		var st struct{ CurrentTime time.Time }
+		if err := json.Unmarshal(res.body, &st); err != nil {
+			return fmt.Sprintf("J|status=%d|err=%s", res.status, verifApiHex(err.Error()))
+		}
+		return fmt.Sprintf("J|status=%d|early_ns=%d|late_ns=%d", res.status, before.Sub(st.CurrentTime).Nanoseconds(), st.CurrentTime.Sub(after).Nanoseconds())
 
 	case "U":
 		v, err := strconv.ParseUint(verifApiUnhex(a[1]), 0, 64)
